@@ -1968,7 +1968,10 @@ impl TransactionBuilder {
             Some(Ordering::Less) => Err(JsError::from_str("Insufficient input in transaction")),
             Some(Ordering::Greater) => {
                 fn has_assets(ma: Option<MultiAsset>) -> bool {
-                    ma.map(|assets| assets.len() > 0).unwrap_or(false)
+                    // only quantities above zero are assets to give change for (the packing loop below runs on the
+                    // same test): a multiasset holding nothing but zero quantities is ADA-only change
+                    ma.map(|assets| assets.partial_cmp(&MultiAsset::new()) == Some(Ordering::Greater))
+                        .unwrap_or(false)
                 }
                 let change_estimator = input_total.checked_sub(&output_total)?;
                 if has_assets(change_estimator.multiasset()) {
